@@ -105,7 +105,7 @@ def compare(impl_payload, model_payload):
         if M.get("s.rel") == "sub" and not set(iins) <= set(sins):
             b.append(("inputs", "inputs %s not within %s" % (I["inputs"], M["s.inputs"])))
         union = sorted(set(sins) | set(iins))
-        if "s.tv" in M and "tv" in I and len(union) <= 16:
+        if "s.tv" in M and "tv" in I and len(union) <= 16 and "skip" not in (M["s.tv"], I["tv"]):
             itv = "" if I["tv"] == "-" else I["tv"]
             stv = "" if M["s.tv"] == "-" else M["s.tv"]
             if len(itv) != 2 ** len(iins):
@@ -151,6 +151,12 @@ def compare(impl_payload, model_payload):
             elif sat != "none":
                 b.append(("sat", "sat_point %s for an unsatisfiable function" % sat))
         if "fused" in I: b.append(("fused", "iterator yields again after exhaustion"))
+    if "s.acc" in M and I.get("acc") != M["s.acc"]:
+        b.append(("acc", "%s, the reference grammar %s" % ("accepted" if I.get("acc") == "1" else "rejected (or crashed)", "accepts" if M["s.acc"] == "1" else "rejects")))
+    if "s.parse" in M and I.get("parse") != M["s.parse"]:
+        b.append(("parse", "printing and parsing gives %s, expected the original tree %s" % (I.get("parse"), M["s.parse"])))
+    if any(I.get(k) == "panic" for k in ("tok", "parse", "pt")):
+        b.append(("panic", "the parser panicked"))
     if "s.val" in M and I.get("val") != M["s.val"]:
         b.append(("val", "evaluates to %s, specified %s" % (I.get("val"), M["s.val"])))
     if "s.checked" in M and "checked" in I:
